@@ -231,7 +231,7 @@ PROPS = {
     },
     "C08": {
         "n": {"quick": 120, "thorough": 5000},
-        "cone": ["Bytes", "BytesLemmas", "Regex", "Generated", "Netconf", "NetconfLemmas", "NcSession", "NcSessionLemmas", "NcSegLemmas", "NcExtraLemmas", "Channel", "PlatformTypes"],
+        "cone": ["Bytes", "BytesLemmas", "Regex", "Generated", "Netconf", "NetconfLemmas", "NcSession", "NcSessionLemmas", "NcSegLemmas", "NcExtraLemmas", "Channel", "PlatformTypes", "DecideLang", "GeneratedSkel", "NcStoreSrc"],
         "rx": True,
         "rule": NC_RULE + " Histories of 1-25 RPCs with 60 ms timeouts and late replies; non-trivial = more than one request.",
         "level_text": "C08_reply_never_lost / _message_any_split: for any cut of a reply into reads (no boundary making a proper prefix look complete) the call carrying its message-id returns it, other ids' entries untouched. Theorems C08_ids / _own_reply / _own_request / _complete_message_filed / _incomplete_kept / _late_reply_harmless / _no_panic over the "
